@@ -171,6 +171,8 @@ for _c, _cuts in (('plain', []), ('branch', ['nb-branch']), ('branch-renamed', [
                   ('distinct', ['distinct']), ('sub', ['sub']), ('kept', ['kept']), ('new', ['new']), ('order', ['order']),
                   ('pos', ['pos']), ('append', ['append'])):
     IB_HINTS['pred-' + _c] = CORE + _cuts + ['pred-' + _c]
+for _c in ('dom', 'new-block', 'untouched', 'keys'):
+    IB_HINTS[_c] = CORE + ['new-block', 'untouched', _c]
 
 
 def insert_block_cuts():
@@ -197,7 +199,7 @@ _req['synthetic-type'] = 'issubclass_synthetic(block_type)'
 register(Contract(
     qual=SC + ':SCFG.insert_block', params=dict(IB_PARAMS, block_type='cls'), modifies=['self.graph'],
     locals={'jt': 'list[name]'},
-    requires=_req, ensures=_ens, loops=insert_block_loops(), cuts=insert_block_cuts(),
+    requires=_req, ensures=_ens, loops=insert_block_loops(), cuts=insert_block_cuts(), frame_clauses=['others'],
     hints=IB_HINTS,
     # R3 (DESIGN 1): a predecessor with a declared back edge loses that arc; proved on the complement
     known={'R3': 'any(len(self.graph[p].backedges) != 0 for p in predecessors)'},
@@ -209,7 +211,8 @@ for meth, cls in (('insert_SyntheticExit', 'SyntheticExit'), ('insert_SyntheticT
     _req, _ens = insert_block_clauses(cls)
     register(Contract(
         qual=SC + ':SCFG.' + meth, params=dict(IB_PARAMS), modifies=['self.graph'],
-        requires=_req, ensures=_ens,
+        requires=_req, ensures=_ens, frame_clauses=['others'],
+        hints={cn: [cn] for cn in _ens},     # a wrapper's clause follows from the same clause of insert_block
         known={'R3': 'any(len(self.graph[p].backedges) != 0 for p in predecessors)'},
         properties=['C14', 'C05'], gen='insert',
     ))
@@ -255,47 +258,74 @@ register(Contract(
     note='exact generated names and constants in the postcondition => functional => independent of set iteration order (C12)',
 ))
 
+EXITS = '{n for n in old.self.graph if old.self.graph[n].is_exiting}'
+RNAME = 'block_name("synth_return", get(old.self.name_gen.kinds, "synth_return", 0))'
 register(Contract(
-    qual=SC + ':SCFG.join_returns', params={'self': 'SCFG'}, modifies=['self.graph', 'self.name_gen.kinds'], e1=False,
+    qual=SC + ':SCFG.join_returns', params={'self': 'SCFG'}, modifies=['self.graph', 'self.name_gen.kinds'],
     requires={'keys': KEYS,
-              'generator-fresh': 'block_name("synth_return", get(self.name_gen.kinds, "synth_return", 0)) not in self.graph'},
+              'generator-fresh': 'block_name("synth_return", get(self.name_gen.kinds, "synth_return", 0)) not in self.graph',
+              # a branching synthetic block always has a successor per table entry: it is never an exit
+              'exits-not-branching': 'all(not isinstance(self.graph[n], SyntheticBranch) for n in self.graph if self.graph[n].is_exiting)'},
     known={'R3': 'any(len(b.backedges) != 0 for b in self.graph.values() if b.is_exiting)'},
     ensures={
-        'noop': 'implies(len([n for n in old.self.graph if old.self.graph[n].is_exiting]) <= 1,'
-                ' self.graph == old.self.graph and self.name_gen.kinds == old.self.name_gen.kinds)',
-        'closed': 'implies(len([n for n in old.self.graph if old.self.graph[n].is_exiting]) > 1,'
-                  ' [n for n in self.graph if self.graph[n].is_exiting] == [block_name("synth_return", get(old.self.name_gen.kinds, "synth_return", 0))]'
-                  ' and type(self.graph[block_name("synth_return", get(old.self.name_gen.kinds, "synth_return", 0))]) is SyntheticReturn'
-                  ' and all(self.graph[n]._jump_targets == old.self.graph[n]._jump_targets + (block_name("synth_return", get(old.self.name_gen.kinds, "synth_return", 0)),)'
-                  ' for n in old.self.graph if old.self.graph[n].is_exiting)'
-                  ' and all(self.graph[n] == old.self.graph[n] for n in old.self.graph if not old.self.graph[n].is_exiting))',
+        'noop': 'implies(card(%s) <= 1, self.graph == old.self.graph and self.name_gen.kinds == old.self.name_gen.kinds)' % EXITS,
+        'dom': 'implies(card(%s) > 1, set(self.graph) == set(old.self.graph) | {%s})' % (EXITS, RNAME),
+        'return-block': 'implies(card(%s) > 1, self.graph[%s] == SyntheticReturn(name=%s, _jump_targets=(), backedges=()))' % (EXITS, RNAME, RNAME),
+        'former-exits': 'implies(card(%s) > 1, all(appended(old.self.graph[n]._jump_targets, self.graph[n]._jump_targets, %s)'
+                        ' and ib_plain(old.self.graph[n], self.graph[n]) for n in %s))' % (EXITS, RNAME, EXITS),
+        'others': 'implies(card(%s) > 1, all(self.graph[n] == old.self.graph[n] for n in old.self.graph if n not in %s))' % (EXITS, EXITS),
+        # exactly one exit afterwards: the new block is one, no former exit and no other old block is (with `dom`)
+        'exit-new': 'implies(card(%s) > 1, self.graph[%s].is_exiting)' % (EXITS, RNAME),
+        'former-not-exit': 'implies(card(%s) > 1, all(not self.graph[n].is_exiting for n in %s))' % (EXITS, EXITS),
+        'others-not-exit': 'implies(card(%s) > 1, all(not self.graph[n].is_exiting for n in old.self.graph if n not in %s))' % (EXITS, EXITS),
+        'kinds': 'implies(card(%s) > 1, self.name_gen.kinds == updated(old.self.name_gen.kinds, "synth_return", get(old.self.name_gen.kinds, "synth_return", 0) + 1))' % EXITS,
     },
+    hints={'exit-new': ['new-block'], 'former-not-exit': ['pred-plain', 'pred-append', 'dom'], 'others-not-exit': ['others', 'dom'],
+           'noop': [], 'former-exits': ['pred-plain', 'pred-append', 'dom'], 'others': ['others', 'dom'],
+           'dom': ['dom'], 'return-block': ['new-block'], 'kinds': []},
     properties=['C14', 'C05'],
 ))
 
+TNAME = 'block_name("synth_tail", get(old.self.name_gen.kinds, "synth_tail", 0))'
+ENAME = 'block_name("synth_exit", get(old.self.name_gen.kinds, "synth_exit", 0))'
 register(Contract(
     qual=SC + ':SCFG.join_tails_and_exits', params={'self': 'SCFG', 'tails': 'list[name]', 'exits': 'list[name]'},
-    returns='pair[name,name]', modifies=['self.graph', 'self.name_gen.kinds'], e1=False, gen='tails_exits',
+    returns='pair[name,name]', modifies=['self.graph', 'self.name_gen.kinds'], gen='tails_exits',
     requires={'keys': KEYS, 'nonempty': 'len(tails) >= 1 and len(exits) >= 1',
               'tails-in': 'all(t in self.graph for t in tails)', 'distinct': 'distinct(tails) and distinct(exits)',
               'targets-distinct': 'all(distinct(self.graph[t]._jump_targets) for t in tails)',
-              'generator-fresh': 'block_name("synth_tail", get(self.name_gen.kinds, "synth_tail", 0)) not in self.graph'
-                                 ' and block_name("synth_exit", get(self.name_gen.kinds, "synth_exit", 0)) not in self.graph',
+              'kinds-nonneg': 'all(self.name_gen.kinds[k] >= 0 for k in self.name_gen.kinds)',
+              # NG_inv for the two names this call may hand out: not yet used as a block, a target or an exit
+              'fresh-tail': 'block_name("synth_tail", get(self.name_gen.kinds, "synth_tail", 0)) not in self.graph and block_name("synth_tail", get(self.name_gen.kinds, "synth_tail", 0)) not in exits',
+              'fresh-tail-targets': 'all(block_name("synth_tail", get(self.name_gen.kinds, "synth_tail", 0)) not in self.graph[t]._jump_targets for t in tails)',
+              'fresh-exit': 'block_name("synth_exit", get(self.name_gen.kinds, "synth_exit", 0)) not in self.graph and block_name("synth_exit", get(self.name_gen.kinds, "synth_exit", 0)) not in exits',
+              'fresh-exit-targets': 'all(block_name("synth_exit", get(self.name_gen.kinds, "synth_exit", 0)) not in self.graph[t]._jump_targets for t in tails)',
               'not-exits': 'all(t not in exits for t in tails)',
               'branch-tails': 'all(table_ok(self.graph[t]) for t in tails if isinstance(self.graph[t], SyntheticBranch))'},
     known={'R3': 'any(len(self.graph[t].backedges) != 0 for t in tails)',
            'R13': 'len(tails) == 1 and len(exits) > 2'},
     ensures={
-        'noop': 'implies(len(tails) == 1 and len(exits) == 1, result == (tails[0], exits[0]) and self.graph == old.self.graph)',
-        'result-tail': 'implies(len(tails) >= 2, result[0] == block_name("synth_tail", get(old.self.name_gen.kinds, "synth_tail", 0))'
-                       ' and type(self.graph[result[0]]) is SyntheticTail)',
-        'result-exit': 'implies(len(exits) >= 2, result[1] == block_name("synth_exit", get(old.self.name_gen.kinds, "synth_exit", 0))'
-                       ' and type(self.graph[result[1]]) is SyntheticExit and self.graph[result[1]]._jump_targets == tuple(exits))',
-        # every former tail-to-exit arc passes the returned tail and then the returned exit
-        'through': 'all(all((t2 not in exits) for t2 in self.graph[t]._jump_targets) or t == result[0] for t in tails)'
-                   ' and implies(len(tails) >= 2, all(any(t2 == result[0] for t2 in self.graph[t]._jump_targets) == any(t2 in exits for t2 in old.self.graph[t]._jump_targets) for t in tails))'
-                   ' and implies(len(exits) >= 2, all(t2 == result[1] or t2 not in exits for t2 in self.graph[result[0]]._jump_targets))',
+        'noop': 'implies(len(tails) == 1 and len(exits) == 1, result == (tails[0], exits[0]) and self.graph == old.self.graph'
+                ' and self.name_gen.kinds == old.self.name_gen.kinds)',
+        'result-tail': 'implies(len(tails) >= 2, result[0] == %s and type(self.graph[result[0]]) is SyntheticTail)' % TNAME,
+        'result-tail-solo': 'implies(len(tails) == 1, result[0] == tails[0])',
+        'result-exit': 'implies(len(exits) >= 2, result[1] == %s and type(self.graph[result[1]]) is SyntheticExit'
+                       ' and self.graph[result[1]]._jump_targets == tuple(exits))' % ENAME,
+        'result-exit-solo': 'implies(len(exits) == 1, result[1] == exits[0])',
+        # every former arc from a tail into the exits now runs through the returned tail ...
+        'tails-rerouted': 'implies(len(tails) >= 2, all(rr_sub(old.self.graph[t]._jump_targets, self.graph[t]._jump_targets, result[0], set(exits))'
+                          ' and rr_new(old.self.graph[t]._jump_targets, self.graph[t]._jump_targets, result[0], set(exits)) for t in tails))',
+        # ... and from there to the returned exit
+        'tail-to-exit': 'implies(len(tails) >= 2, self.graph[result[0]]._jump_targets == (result[1],))',
+        # a single tail with several exits: its arcs into the exits now run through the returned exit
+        'solo-tail-rerouted': 'implies(len(tails) == 1 and len(exits) >= 2,'
+                              ' rr_sub(old.self.graph[tails[0]]._jump_targets, self.graph[tails[0]]._jump_targets, result[1], set(exits))'
+                              ' and rr_new(old.self.graph[tails[0]]._jump_targets, self.graph[tails[0]]._jump_targets, result[1], set(exits)))',
         'others': 'all(self.graph[b] == old.self.graph[b] for b in old.self.graph if b not in tails)',
     },
+    frame_clauses=['others'],
+    hints={'result-tail': ['new-block', 'pred-plain', 'dom'], 'tail-to-exit': ['new-block', 'pred-sub', 'pred-new', 'pred-distinct', 'pred-plain', 'dom'],
+           'result-exit': ['new-block', 'others', 'dom'], 'tails-rerouted': ['pred-sub', 'pred-new', 'others', 'dom', 'new-block'],
+           'solo-tail-rerouted': ['pred-sub', 'pred-new', 'dom'], 'others': ['others', 'dom']},
     properties=['C14'],
 ))
